@@ -98,10 +98,10 @@ impl KbAny {
         kb_fwd!(self, k => k.process_keyevent(e))
     }
     pub fn clear(&mut self) {
-        kb_fwd!(self, k => k.clear())
+        let _ = kb_fwd!(self, k => k.clear());
     }
     pub fn set_ctrl_handling(&mut self, h: HandleControl) {
-        kb_fwd!(self, k => k.set_ctrl_handling(h))
+        let _ = kb_fwd!(self, k => k.set_ctrl_handling(h));
     }
     pub fn get_ctrl_handling(&self) -> HandleControl {
         kb_fwd!(self, k => k.get_ctrl_handling())
